@@ -142,6 +142,9 @@ func genPager(t *rapid.T) pagerPage {
 	var items []string
 	for i := 1; i <= n; i++ {
 		kind := g.weighted("ik", pagerItemKinds)
+		if (fam.name == "dir-sub-num" || strings.HasPrefix(fam.name, "escaped")) && kind == "link" && g.chance(50, "famdocrel") {
+			kind = "docrel" // these families are about how relative links are resolved
+		}
 		if i == k && g.chance(80, "curplain") {
 			kind = g.pick("curk", "plain", "decorated")
 		}
